@@ -283,6 +283,24 @@ def same_snapshot(a, b):
   return a[1] == b[1] and len(a[0]) == len(b[0]) and all(x == y for x, y in zip(a[0], b[0]))
 
 
+def kinds(tree):
+  """The tree structure with haiku FlatMap read as dict (every other container kind kept): keys, nesting, leaf order
+  and count must match; dict <-> FlatMap is not a difference (coordinator's decision: the container kind the
+  haiku-only ignore_grads wrapper hands back is not part of C10 / C17 as worded)."""
+  import collections.abc
+  import jax
+
+  def norm(x):
+    if isinstance(x, collections.abc.Mapping):
+      return {k: norm(v) for k, v in x.items()}
+    if isinstance(x, tuple) and hasattr(x, '_fields'):
+      return type(x)(*[norm(v) for v in x])
+    if isinstance(x, (list, tuple)):
+      return type(x)(norm(v) for v in x)
+    return x
+  return jax.tree_util.tree_structure(norm(tree))
+
+
 def same_values(a, b):
   """Same leaves in the same order; the container TYPES may differ (pickling turns a haiku FlatMap into a dict)."""
   return len(a[0]) == len(b[0]) and all(x == y for x, y in zip(a[0], b[0]))
